@@ -50,6 +50,18 @@ T = {
                 technique="runtime differential oracle: real ParallelGradient.parallel_gradient vs independent field-aligned finite-difference formula (exact-rational weights), identities and observed convergence order; per-rank Layout objects for the local-index mapping",
                 text="Orders 2-6, generated sizes/degrees/twist incl. caller-supplied r-dependent transform, r split over 1-4 ranks, every local radial index and every node incl. seam rows; identities; convergence order.",
                 note=REF),
+    "C14": dict(level="exploration", engine="refmath+simmpi", design="3/C14",
+                technique="runtime differential oracle: real DiffEqSolver output vs an independent dense Galerkin assembly and solve per mode; manufactured solutions, linearity, Dirichlet zeros, mode independence and refusal of ill-posed problems observed on the real code",
+                text="Generated problems (degrees, cells, quadrature, coefficient functions, boundary patterns per mode, 1-4 simulated ranks); every (mode,z) radial profile compared with the dense reference at tolerance scaled by cond(K).",
+                note=REF + "; " + SIM + "; uniform radial breakpoints"),
+    "C15": dict(level="exploration", engine="refmath+simmpi", design="3/C15",
+                technique="runtime differential oracle: every stage of the real density->modes->solve->inverse pipeline on simulated ranks vs an independent pipeline (numpy.fft + dense Galerkin with QN coefficients); FFT round trip; equilibrium fixed point of the full Strang step",
+                text="Generated grids (even/odd theta counts, aliased modes, chi 0/1, kinetic electrons) on process grids up to 6 ranks; stage-wise comparison of assembled global fields; exact-zero and fixed-point checks for the equilibrium.",
+                note=REF + "; " + SIM),
+    "C16": dict(level="exploration", engine="refmath+simmpi", design="3/C16",
+                technique="runtime differential oracle: real DensityFinder on simulated ranks vs exact Gauss-Legendre integral of the reference v-interpolant (minus equilibrium at the global radius)",
+                text="Generated v-spaces (5-40 nodes, degree 1-5), data kinds and process grids splitting r and/or z; float and complex rho storage; every (r,theta,z) compared.",
+                note=REF + "; " + SIM),
     "C20": dict(level="exploration", engine="direct+simmpi", design="3/C20",
                 technique="runtime oracle: brute-force divisor enumeration (exhaustive box + random), sys.monitoring line budget for termination, layouts built and transposed on the chosen grid under simulated MPI",
                 text="Exhaustive comparison with brute force inside a bounded box, random sampling far beyond, termination judged in executed lines; the chosen grid is used to build and exercise the standard layouts.",
